@@ -30,6 +30,136 @@ type ElemPred struct {
 	// outcome cache per element value: +1 carries on, 0 rejects (return false / error / panic), -1 undecided
 	cache map[int64]int
 	Why   string // why undecided
+
+	// function mode: the test is `strings.IndexFunc(x, F) < 0` (or !ContainsFunc(x, F)): an
+	// element passes when F is false for it. Call is the library call, Pred is F.
+	Pred *ssa.Function
+	Call *ssa.Call
+}
+
+// elemPredicateCall finds, in fn, the library call that applies a predicate function to every
+// element of a value satisfying over (strings.IndexFunc, strings.ContainsFunc and their bytes
+// counterparts), and returns the element predicate "F is false".
+func (p *Program) elemPredicateCall(fn *ssa.Function, over func(v ssa.Value) bool) *ElemPred {
+	for _, ci := range callsIn(fn) {
+		c, ok := ci.(*ssa.Call)
+		if !ok || len(c.Call.Args) != 2 {
+			continue
+		}
+		switch calleeName(&c.Call) {
+		case "strings.IndexFunc", "strings.ContainsFunc", "bytes.IndexFunc", "bytes.ContainsFunc", "strings.LastIndexFunc", "bytes.LastIndexFunc":
+		default:
+			continue
+		}
+		if !over(stripConv(c.Call.Args[0])) {
+			continue
+		}
+		var pred *ssa.Function
+		switch f := c.Call.Args[1].(type) {
+		case *ssa.Function:
+			pred = f
+		case *ssa.MakeClosure:
+			if len(f.Bindings) == 0 {
+				pred, _ = f.Fn.(*ssa.Function)
+			}
+		}
+		if pred == nil || len(pred.Blocks) == 0 || len(pred.Params) != 1 {
+			continue
+		}
+		ep := &ElemPred{p: p, fn: pred, Pred: pred, Call: c, Domain: "rune", elems: map[ssa.Value]bool{pred.Params[0]: true}, cache: map[int64]int{}}
+		crit := map[int64]bool{}
+		for _, b := range pred.Blocks {
+			for _, in := range b.Instrs {
+				for _, op := range in.Operands(nil) {
+					k, ok := (*op).(*ssa.Const)
+					if !ok || k.Value == nil {
+						continue
+					}
+					switch k.Value.Kind() {
+					case constant.Int:
+						if n, ok := constant.Int64Val(k.Value); ok {
+							crit[n] = true
+						}
+					case constant.String:
+						for _, r := range constant.StringVal(k.Value) {
+							crit[int64(r)] = true
+						}
+					}
+				}
+				if bo, ok := in.(*ssa.BinOp); ok {
+					switch bo.Op {
+					case token.ADD, token.SUB, token.MUL, token.QUO, token.REM, token.AND, token.OR, token.XOR, token.SHL, token.SHR, token.AND_NOT:
+						if ep.dependsOnElem(bo.X, 0) || ep.dependsOnElem(bo.Y, 0) {
+							ep.arith = true
+						}
+					}
+				}
+			}
+		}
+		for _, k := range []int64{0, 0x20, 0x7e, 0x7f, 0x80, 0xff, 0x100, 0xfffd, 0x10ffff} {
+			crit[k] = true
+		}
+		pts := map[int64]bool{}
+		for k := range crit {
+			for _, d := range []int64{-1, 0, 1} {
+				pts[k+d] = true
+			}
+		}
+		for k := range pts {
+			if ep.inDomain(k) {
+				ep.points = append(ep.points, k)
+			}
+		}
+		sort.Slice(ep.points, func(i, j int) bool { return ep.points[i] < ep.points[j] })
+		return ep
+	}
+	return nil
+}
+
+// walkPred evaluates the predicate function on element value c: +1 the element passes (F is
+// false), 0 it does not, -1 undecided.
+func (ep *ElemPred) walkPred(c int64) int {
+	var prev *ssa.BasicBlock
+	cur := ep.Pred.Blocks[0]
+	for steps := 0; steps < 200; steps++ {
+		for _, in := range cur.Instrs {
+			if _, isStore := in.(*ssa.Store); isStore {
+				ep.Why = "the predicate function stores"
+				return -1
+			}
+		}
+		switch x := cur.Instrs[len(cur.Instrs)-1].(type) {
+		case *ssa.Return:
+			if len(x.Results) != 1 {
+				return -1
+			}
+			v, ok := ep.eval(x.Results[0], c, prev, cur, 0)
+			if !ok || !v.isBool {
+				ep.Why = "the predicate's result is not a function of the element and constants"
+				return -1
+			}
+			if v.b {
+				return 0
+			}
+			return 1
+		case *ssa.Jump:
+			prev, cur = cur, cur.Succs[0]
+		case *ssa.If:
+			v, ok := ep.eval(x.Cond, c, prev, cur, 0)
+			if !ok || !v.isBool {
+				ep.Why = "a branch of the predicate function is not a function of the element and constants"
+				return -1
+			}
+			if v.b {
+				prev, cur = cur, cur.Succs[0]
+			} else {
+				prev, cur = cur, cur.Succs[1]
+			}
+		default:
+			return -1
+		}
+	}
+	return -1
 }
 
 // elemPredicate analyses the single loop of fn over a value satisfying over.
@@ -204,7 +334,12 @@ func (ep *ElemPred) Carries(c int64) (carries bool, decided bool) {
 	if r, ok := ep.cache[c]; ok {
 		return r == 1, r >= 0
 	}
-	res := ep.walk(c)
+	var res int
+	if ep.Pred != nil {
+		res = ep.walkPred(c)
+	} else {
+		res = ep.walk(c)
+	}
 	ep.cache[c] = res
 	return res == 1, res >= 0
 }
